@@ -76,12 +76,18 @@ type failWriter struct {
 	budget  int
 	partial bool
 	wrote   int
+	// eager: the error is reported by the call that uses up the budget, together with a full
+	// write (n == len(p), err != nil is legal for an io.Writer), not by the following call
+	eager bool
 }
 
 func (w *failWriter) Write(p []byte) (int, error) {
 	if len(p) <= w.budget {
 		w.budget -= len(p)
 		w.wrote += len(p)
+		if w.eager && w.budget == 0 && len(p) > 0 {
+			return len(p), errInjected
+		}
 		return len(p), nil
 	}
 	n := 0
